@@ -486,9 +486,39 @@ def run(ctx: Ctx) -> None:
                   {"must_raise_internal": mr, "lifted_by_ExprBuilder": lifted},
                   f"`{nm}` can reach the type checker as an ordinary eager expression: both operands/branches would be evaluated")
     sc = idx.find_func("is_short_circuit_expr", BLD)
-    t = ast.unparse(sc.node)
-    ctx.check("ast.BoolOp" in t and "ast.Compare" in t and "len(node.comparators) > 1" in t, "R-C05.3", f"{sc.qualname}", sc.where, {},
-              "and/or or chained comparisons are not recognised as short-circuit forms")
+    # the two classifiers, interpreted on node tokens: which expression forms need branches (must be lifted by the builder) and which
+    # are therefore not allowed inside a comprehension (a single dataflow block, where both operands would be evaluated)
+    from ..absint.astmodel import N as _N
+    from ..absint.pyeval import PyEval as _PE2, Raised as _Rai2
+    from ..absint.minieval import Unsupported as _Uns2
+    forms = {"and/or": (_N("BoolOp", op=_N("And"), values=[_N("Name", id="a"), _N("Name", id="b")]), True, True),
+             "a < b < c": (_N("Compare", left=_N("Name", id="a"), ops=[_N("Lt"), _N("Lt")], comparators=[_N("Name", id="b"), _N("Name", id="c")]), True, True),
+             "a < b": (_N("Compare", left=_N("Name", id="a"), ops=[_N("Lt")], comparators=[_N("Name", id="b")]), False, False),
+             "x if c else y": (_N("IfExp", test=_N("Name", id="c"), body=_N("Name", id="x"), orelse=_N("Name", id="y")), False, True),
+             "(x := e)": (_N("NamedExpr", target=_N("Name", id="x"), value=_N("Name", id="e")), False, True),
+             "f(a)": (_N("Call", func=_N("Name", id="f"), args=[_N("Name", id="a")], keywords=[]), False, False),
+             "a + b": (_N("BinOp", left=_N("Name", id="a"), op=_N("Add"), right=_N("Name", id="b")), False, False),
+             "a & b": (_N("BinOp", left=_N("Name", id="a"), op=_N("BitAnd"), right=_N("Name", id="b")), False, False),
+             "not a": (_N("UnaryOp", op=_N("Not"), operand=_N("Name", id="a")), False, False),
+             "name": (_N("Name", id="a"), False, False)}
+    for fn_name, col, meaning in (("is_short_circuit_expr", 1, "and/or or chained comparisons are not recognised as short-circuit forms"),
+                                  ("is_illegal_in_list_comp", 2, "a short-circuit or conditional form is allowed inside a comprehension, which is built as one dataflow "
+                                                                 "block: every operand / branch is evaluated, also those Python skips")):
+        fcl = idx.find_func(fn_name, BLD)
+        bad_f = []
+        try:
+            for label, row in forms.items():
+                out_ = _PE2(idx, BLD, max_depth=5).run(fcl.node.body, {fcl.node.args.args[0].arg: row[0]})
+                got_ = out_[1] if out_[0] == "return" else out_
+                if got_ is not row[col]:
+                    bad_f.append({"expression": label, fn_name: got_ if isinstance(got_, bool) else repr(got_), "should_be": row[col]})
+            ctx.check(not bad_f, "R-C05.3", f"{fcl.qualname}#classification", fcl.where, {"forms": len(forms), "counterexamples": bad_f}, meaning)
+        except (_Uns2, _Rai2) as e_:
+            if fn_name == "is_short_circuit_expr":
+                t = ast.unparse(sc.node)
+                ctx.check("ast.BoolOp" in t and "ast.Compare" in t and "len(node.comparators) > 1" in t, "R-C05.3", f"{sc.qualname}", sc.where, {}, meaning)
+            else:
+                ctx.undecided("R-C05.3", f"{fcl.qualname}#classification", fcl.where, str(e_))
     gv = eb_cls.methods.get("generic_visit")
     ok = gv is not None and any(isinstance(n, ast.If) and "is_short_circuit_expr(node)" in ast.unparse(n.test) and "add_branch" in ast.unparse(n) for n in walk_no_nested(gv.node))
     ctx.check(ok, "R-C05.3", f"{eb_cls.qualname}.generic_visit#lifts-short-circuit", gv.where if gv else eb_cls.where, {}, "short-circuit expressions used as values are not lowered to branches")
